@@ -172,7 +172,7 @@ def E1() -> bool:
 
 
 def _shards(tier):
-    N, D = (4, 3) if tier == "quick" else (6, 3)
+    N, D = (4, 3) if tier == "quick" else (5, 3)
     profiles = [{}, {"open": 1}, {"open": 3}, {"msg": 4}, {"exc": 2}, {"fin": 1}]
     out = []
     for p in profiles:
@@ -192,6 +192,6 @@ OBLIGATIONS = [
         shards=_shards,
         twin=[{"N": 3, "D": 3, "twin_label": "mid-write-nested"}],
         timeout={"quick": 100, "thorough": 1200},
-        bounds={"quick": "programs <= 4 ops (baseline) / <= 3 ops (5 other style profiles), depth <= 3; every crash instant; cut classes {nothing, strictly inside, whole}", "thorough": "programs <= 6 / <= 5 ops"},
+        bounds={"quick": "programs <= 4 ops (baseline) / <= 3 ops (5 other style profiles), depth <= 3; every crash instant; cut classes {nothing, strictly inside, whole}", "thorough": "programs <= 5 / <= 4 ops"},
     ),
 ]
